@@ -195,10 +195,17 @@ func checkThirdParty(c tpCase) *harness.Fail {
 	return compareSamples("C06|third-party", p, &c.Clear, clear)
 }
 
-// genSubs draws a legal sub-sample map for a video sample.
-func genSubs(t *rapid.T, c *cryptgen.Case, i int, style int) [][2]uint32 {
+// genSubs draws a legal sub-sample map for a video sample. ivSize is the per-sample IV size written to senc:
+// the entry count is kept within what the 8-bit sample_info_size of saiz can describe (ivSize + 2 + 6n <= 255)
+// by leaving the NAL units clear that would exceed it (a packager is free to do that).
+func genSubs(t *rapid.T, c *cryptgen.Case, i int, style int, ivSize int) [][2]uint32 {
 	var out [][2]uint32
 	clear := 0
+	total := 0
+	for _, sp := range c.Spans(i) {
+		total += 4 + sp.Len
+	}
+	maxN := (255-ivSize-2)/6 - 3 - total/65535
 	flush := func(prot int) {
 		// split the clear run: at most 65535 per entry, and sometimes at arbitrary extra points
 		for clear > 65535 {
@@ -219,7 +226,7 @@ func genSubs(t *rapid.T, c *cryptgen.Case, i int, style int) [][2]uint32 {
 		if c.Scheme == "cbcs" {
 			min = sp.Hdr
 		}
-		if !sp.VCL || sp.Len <= min {
+		if !sp.VCL || sp.Len <= min || len(out) >= maxN {
 			clear += sp.Len
 			continue
 		}
@@ -266,7 +273,11 @@ func genThirdParty(t *rapid.T) tpCase {
 		c.UseSubs = true
 		style := rapid.IntRange(0, 3).Draw(t, "subStyle")
 		for i := 0; i < n; i++ {
-			c.Subs[i] = genSubs(t, cl, i, style)
+			ivs := 0
+			if cl.Scheme == "cenc" {
+				ivs = c.IVSize
+			}
+			c.Subs[i] = genSubs(t, cl, i, style, ivs)
 		}
 		if cl.Scheme == "cbcs" {
 			pat := rapid.SampledFrom([][2]byte{{1, 9}, {1, 9}, {1, 9}, {0, 0}, {10, 0}}).Draw(t, "pattern")
